@@ -62,6 +62,24 @@ pub async fn exec(session: &Session, command: &str, params: Option<Map<String, J
         .await
 }
 
+/// `exec` for a writer that names an idempotency key.
+pub async fn exec_keyed(session: &Session, command: &str, params: Option<Map<String, Json>>, key: &str) -> Response {
+    let mut request: Request = serde_json::from_value(serde_json::json!({
+        "kip": "2.0",
+        "operations": [{"command": command}],
+        "execution": {"mode": "independent", "idempotency_key": key}
+    }))
+    .expect("machinery: keyed request");
+    request.parameters = params;
+    let parsed = match anda_kip::parse_kip(command) {
+        Ok(parsed) => parsed,
+        Err(err) => return Response::from(err),
+    };
+    session
+        .execute(parsed, &request, &request.operations[0])
+        .await
+}
+
 /// The error code of a response ("" when it succeeded).
 pub fn error_code(response: &Response) -> String {
     response
